@@ -86,8 +86,8 @@ def _install():
 def cases(tier, seed, prep=None):
     n = 300 if tier == "quick" else 9000
     kinds = ["responsive", "responsive", "silent", "silent", "slow-then-silent", "cut-then-responsive", "close",
-             "responsive", "silent"]
-    out = [{"seed": seed * 1000003 + 1600000 + i, "kind": kinds[i % len(kinds)], "bulk": i % len(kinds) >= 7} for i in range(n)]
+             "responsive", "silent", "silent-again"]
+    out = [{"seed": seed * 1000003 + 1600000 + i, "kind": kinds[i % len(kinds)], "bulk": i % len(kinds) in (7, 8)} for i in range(n)]
     for i in range(24 if tier == "quick" else 600):
         out.append({"seed": seed * 1000003 + 1650000 + i, "kind": "cut-then-responsive", "nflaps": [5, 8, 12, 20][i % 4]})
     return out
@@ -202,6 +202,11 @@ def run_case(spec):
             if not sch.step():
                 r.rightNow = t_end
                 break
+    again = None
+    if kind == "silent-again":
+        # the generation that replaced a silent connection goes silent too (1-3 times in a row)
+        kind = "silent"
+        again = rng.choice([1, 1, 2, 3])
     if kind in ("silent", "slow-then-silent"):
         t0 = t_conn + rng.random() * x * rng.choice([1, 3, 7])
         if kind == "slow-then-silent":
@@ -214,6 +219,21 @@ def run_case(spec):
         else:
             silent_link = None
         run_until(t0 + 6 * x + 5)
+        episodes = []
+        for _ in range(again or 0):
+            if not dp.both_connected():
+                break
+            t1 = r.seconds() + rng.random() * 3 * x
+            run_until(t1)
+            link2 = dp.selected_link()
+            if link2 is None or not dp.both_connected():
+                break
+            n_drops = len([1 for (t, m, w, e) in _events if m is lm and w == "drop"])
+            last_pong = max([t for (t, m, w, e) in _events if m is lm and w == "pong"] + [max([t for (t, m, w, e) in _events if m is lm and w == "made"] or [t1])])
+            r.blackhole(link2)
+            run_until(t1 + 6 * x + 5)
+            d2 = [t for (t, m, w, e) in _events if m is lm and w == "drop"][n_drops:]
+            episodes.append((t1, last_pong, d2[0] if d2 else None, dp.both_connected()))
     elif kind == "cut-then-responsive":
         # 1..12 generations are lost in a row (each some time after it came up, possibly before its
         # first ping round trip), then the replacement is left alone and must be monitored and kept
@@ -301,6 +321,15 @@ def run_case(spec):
         elif w == "pong" and e in sent_at:
             rtts.append(t - sent_at[e])
     slow_rtt = [d_ for d_ in rtts if d_ >= x - 1e-9]
+    for (t1, last_pong, dropped_at, reconnected) in (episodes if kind == "silent" and again else []):
+        if dropped_at is None:
+            viol.append({"key": "C16/silent-peer-never-dropped/again", "msg": "the replacement connection was blackholed at t=%.3f (x=%s) and never dropped" % (t1, x), "witness": wit()})
+        else:
+            ref2 = max(last_pong, max([t for (t, e) in pongs if t <= dropped_at] or [last_pong]))
+            if dropped_at >= ref2 + 3 * x - 1e-9:
+                viol.append({"key": "C16/silent-peer-dropped-too-late/again", "msg": "replacement connection: last sign of life t=%.3f, dropped at t=%.3f (x=%s)" % (ref2, dropped_at, x), "witness": wit()})
+            if not reconnected:
+                viol.append({"key": "C16/no-new-generation-after-drop/again", "msg": "the replacement connection was dropped at t=%.3f but the pair is %s/%s at t=%.3f" % (dropped_at, dp.mstate(lead), dp.mstate(fol), t_end), "witness": wit()})
     if kind in ("responsive", "cut-then-responsive", "close") and slow_rtt:
         return_inconclusive = "harness premise broken: a pong took %.3f s >= x=%s" % (max(slow_rtt), x)
     else:
@@ -339,7 +368,7 @@ def run_case(spec):
         return {"inconclusive": return_inconclusive, "violations": []}
     return {"violations": viol, "nontrivial": nontrivial,
             "counters": {"pongs": len(pongs), "pings": len([1 for (t, w, e) in ev_l if w == "ping"]), "silent_cases_dropped": silent_dropped,
-                         "responsive_intervals": responsive_intervals, "drops": len(drops), "cuts": cuts, "kind_" + kind: 1,
+                         "responsive_intervals": responsive_intervals, "drops": len(drops), "cuts": cuts, "kind_" + kind: 1, "repeated_silent_episodes": len(episodes) if (kind == "silent" and again) else 0,
                          "bulk_cases": int(bulk is not None), "bulk_bytes_written": bulk.written if bulk else 0,
                          "pings_sent_while_outbound_paused": paused_pings[0]},
             "sample": {"spec": spec, "x": x, "leader": lead, "pongs": len(pongs), "drops": [round(t, 3) for t in drops], "t0": t0,
